@@ -174,6 +174,8 @@ pub struct Sess {
     stale_ts: BTreeMap<String, u64>,
     last_applied_id: BTreeMap<String, Option<i64>>, // since the last accepted NBIRTH
     applied_ids: BTreeSet<(String, i64)>,
+    /// payload timestamp of every resequenceable message seen, by (node, id)
+    msg_ts: BTreeMap<(String, i64), u64>,
     reseq_on: bool,
     pub ordered_ids: bool, // the generator numbers a session's messages in publish order
     /// nodes whose current publisher session lost its NBIRTH (`nl=1` on the line): two publisher
@@ -304,6 +306,7 @@ impl Sess {
             stale_ts: BTreeMap::new(),
             last_applied_id: BTreeMap::new(),
             applied_ids: BTreeSet::new(),
+            msg_ts: Default::default(),
             reseq_on: num(w, "rq") == 1,
             ordered_ids: false,
             order_suspended: Default::default(),
@@ -403,6 +406,11 @@ impl Sess {
         if w[1] == "ev" && w[3] != "nbirth" && w[3] != "ndeath" {
             let n = target.clone().unwrap();
             let t = ts.unwrap();
+            if let Some(id) = kv(w, "id").and_then(|x| x.parse::<i64>().ok()) {
+                if id > 0 {
+                    self.msg_ts.insert((n.clone(), id), t);
+                }
+            }
             let old = t < *self.birth_ts.get(&n).unwrap_or(&0) || t < *self.stale_ts.get(&n).unwrap_or(&0);
             if old && self.node_life.contains_key(&n) && !effs.is_empty() {
                 out.fail("C06:old-message-discarded", w[3], format!("{} => {:?}", op, effs));
@@ -439,6 +447,14 @@ impl Sess {
                     self.dev_life.insert((n.clone(), args[0].to_string()), false);
                 }
                 "nodeData" | "devData" => {
+                    // C06 third sentence, at application time: a message buffered by the resequencer
+                    // must not be applied once a newer birth has been accepted
+                    let id = if name == "nodeData" { args[0] } else { args[1] };
+                    if let (Some(t), Some(b)) = (self.msg_ts.get(&(n.clone(), id)), self.birth_ts.get(n)) {
+                        if id > 0 && *t < *b {
+                            out.fail("C06:old-message-discarded", "applied-after-newer-birth", format!("{} => {:?}: message {} (ts {}) applied under the birth of ts {}", op, effs, id, t, b));
+                        }
+                    }
                     // C06 first sentence
                     if self.node_life.get(n) != Some(&true) {
                         out.fail("C06:data-needs-node-birth", name, format!("{} => {:?}", op, effs));
@@ -1079,6 +1095,28 @@ fn trigger_scenarios(out: &mut Out) {
             );
         }
         // negative control: gap inside the window produces nothing
+        c.out.nontrivial();
+        c.out.count("trigger-scenario");
+    }
+    // a fault whose reason is switched off requests nothing and must not consume the cooldown: a later
+    // fault with an enabled reason still gets its rebirth request
+    {
+        let cfg2 = "ip=0 bd=1 un=1 ud=0 um=1 rf=1 rs=1 to=100 cd=500 rq=1 q=1024";
+        let mut c = Case::begin(out, cfg2, t0);
+        c.out.set_desc("trigger disabled-reason-keeps-cooldown-free".into());
+        c.op(&birth);
+        let before = c.sess.ncmds;
+        c.op(&format!("ev n1 ddata dev=4 seq=1 ts={} id=5 ans=ok", t0 + 5)); // unknown device, reason off
+        c.op("inv n1"); // invalid payload, reason off
+        if c.sess.ncmds != before {
+            c.out.fail("C07:no-rebirth-for-disabled-reason", "unknown-device/invalid-payload", format!("{} NCMD(s) for disabled reasons", c.sess.ncmds - before));
+        }
+        c.op(&format!("ev n1 ndata seq=3 ts={} id=6 ans=ok", t0 + 6));
+        let a = c.op(&format!("ev n1 ndata seq=3 ts={} id=7 ans=ok", t0 + 7)); // duplicate: reason on
+        let got = c.sess.ncmds - before;
+        if got != 1 {
+            c.out.fail("C07:trigger-requests-rebirth", "enabled-reason-after-disabled-reason-within-cooldown", format!("duplicate sequence number after faults with disabled reasons: {} NCMD(s) (effects {})", got, a));
+        }
         c.out.nontrivial();
         c.out.count("trigger-scenario");
     }
